@@ -10,3 +10,4 @@ gcc -shared -fPIC -O2 -o .build/fsjournal.so shim/fsjournal.c -ldl -lpthread
 if [ -f translate/translate.py ]; then python3 translate/translate.py; fi
 (cd lean && lake build RNacos driver)
 (cd harness && cargo build --offline)
+(cd /repo && cargo build --offline)
